@@ -454,7 +454,33 @@ impl Prop for C09 {
 						json!({"jsonrpc": "2.0", "method": "receive_tx", "id": 1, "params": [sv, dest, r_addr]})
 					}
 					"foreign_rpc_finalize" => json!({"jsonrpc": "2.0", "method": "finalize_tx", "id": 1, "params": [sv]}),
-					_ => json!({"jsonrpc": "2.0", "method": "build_coinbase", "id": 1, "params": {"block_fees": {"fees": 0, "height": 3, "key_id": null}}}),
+					_ => {
+						// a miner's request: every field is the caller's (boundary heights and
+						// fees, key ids that are not key ids)
+						let mut r = SimRng::new(seed ^ 0xcb);
+						let height = match r.below(6) {
+							0 => json!(0),
+							1 => json!(u64::MAX),
+							2 => json!(u64::MAX - 1),
+							3 => json!(u64::MAX - 1440),
+							_ => json!(3),
+						};
+						let fees = match r.below(5) {
+							0 => json!(u64::MAX),
+							1 => json!(u64::MAX - 60_000_000_000u64),
+							_ => json!(0),
+						};
+						let key_id = match r.below(8) {
+							0 => json!(""),
+							1 => json!("zz"),
+							2 => json!("0300000000"),
+							3 => json!("03".to_owned() + &"00".repeat(40)),
+							4 => json!("\u{00fc}\u{00fc}"),
+							5 => json!("0300000000000000000000000000000000"),
+							_ => Value::Null,
+						};
+						json!({"jsonrpc": "2.0", "method": "build_coinbase", "id": 1, "params": {"block_fees": {"fees": fees, "height": height, "key_id": key_id}}})
+					}
 				}
 				.to_string();
 				let other = crate::ops::slate_to_json(&slate2);
